@@ -107,6 +107,8 @@ def make_driver(rng, lo, hi, ref, scheme, fn, natoms):
     atoms = Atoms("Cu" * natoms, positions=rng.uniform(0, 6, (natoms, 3)), cell=[8, 8, 8], pbc=False)
     calc = Prescribed(energy=0.0, forces=np.zeros((natoms, 3)))
     atoms.calc = calc
+    if rng.random() < 0.5:
+        atoms.set_masses(rng.uniform(1, 200, natoms))  # several species: the adapted delta is the same for all of them
     drv = AdaptiveForceBias(atoms, min_delta=lo, max_delta=hi, temperature=300.0, scheme=scheme, reference_variance=ref, update_function=fn, seed=derive_seed("c18", lo, hi, ref))
     return drv, atoms, calc
 
